@@ -184,7 +184,7 @@ class Ex:
             v = z3.Int(name)
             self.assumptions.append(z3.And(v >= I128_MIN, v <= I128_MAX))
             return IntV(v, I80)
-        if ty in ('anchor_lang::prelude::Pubkey', 'Pubkey'):
+        if ty in ('anchor_lang::prelude::Pubkey', 'Pubkey') or ty.endswith('::Pubkey'):
             return IntV(z3.Int(name), 'Pubkey')
         if ty == '[u8]':
             return IntV(z3.Int(name + '.bytes'), 'bytes')
@@ -731,6 +731,18 @@ class Engine:
             if isinstance(o, StructV):
                 if '__key' not in o.fields: o.fields['__key'] = IntV(z3.Int(o.name + '.key'), 'Pubkey')
                 return o.fields['__key']
+        if re.search(r'Clock as anchor_lang::prelude::SolanaSysvar>::get$|Clock as .*Sysvar>::get$', c) and not self.is_opaque('CLOCKMODEL'):
+            def ci(n, ty):
+                v = z3.Int('clock.' + n); lo, hi = INT_RANGES[ty]
+                if not getattr(self, '_clock_assumed', {}).get(n):
+                    self.ex.assumptions.append(z3.And(v >= lo, v <= hi)); self._clock_assumed = dict(getattr(self, '_clock_assumed', {}), **{n: True})
+                return IntV(v, ty)
+            clk = StructV('Clock', 'clock', {0: ci('slot', 'u64'), 1: ci('epoch_start_timestamp', 'i64'), 2: ci('epoch', 'u64'),
+                                             3: ci('leader_schedule_epoch', 'u64'), 4: ci('unix_timestamp', 'i64')}, lazy=False)
+            st.events.append(('call', c, []))
+            return EnumV('Result', 0, {0: {0: clk}})
+        if re.search(r'Pubkey as Default>::default$', c):
+            return IntV(z3.IntVal(0), 'Pubkey')
         # ---- list / iterator models
         if re.match(r'^core::slice::<impl \[.*\]>::iter$', c):
             lst = args[0]
@@ -854,7 +866,7 @@ class Engine:
                 merged = None
                 if len(parked) >= 2:
                     try:
-                        merged = self.merge_states(parked, T['L']); self.stats['merges'] += 1
+                        merged = self.merge_states([x.clone() for x in parked], T['L']); self.stats['merges'] += 1
                     except Unmergeable as e:
                         self.stats['merge_fail'] += 1
                 newstates = [merged] if merged is not None else parked
@@ -893,12 +905,21 @@ class Engine:
         for nxt in states[1:]:
             ncond = z3.And(nxt.pc[L:]) if len(nxt.pc) > L else z3.BoolVal(True)
             if len(cur.frames) != len(nxt.frames): raise Unmergeable('frames')
-            memo = {}
             for fa, fb in zip(cur.frames, nxt.frames):
                 if fa['fn'] is not fb['fn'] or fa['bb'] != fb['bb'] or fa['idx'] != fb['idx']: raise Unmergeable('pc')
+            # pass 1: pair up corresponding objects of the two states (b-object id -> a-object), no mutation
+            self._pair = {}; seen = set()
+            for fa, fb in zip(cur.frames, nxt.frames):
+                for k in set(fa['locals']) & set(fb['locals']):
+                    self.pair_walk(fa['locals'][k], fb['locals'][k], seen)
+            for ra, rb in zip(cur.roots, nxt.roots):
+                self.pair_walk(ra, rb, seen)
+            # pass 2: merge; anything adopted from nxt is translated into cur's object graph
+            memo = {}; self._tr_seen = {}
+            for fa, fb in zip(cur.frames, nxt.frames):
                 for k in set(fa['locals']) | set(fb['locals']):
                     ca = fa['locals'].get(k); cb = fb['locals'].get(k)
-                    if ca is None: fa['locals'][k] = cb; continue
+                    if ca is None: fa['locals'][k] = self.translate(cb); continue
                     if cb is None: continue
                     self.merge_cell(ca, cb, ncond, memo)
             for ra, rb in zip(cur.roots, nxt.roots):
@@ -909,6 +930,67 @@ class Engine:
             cur.pc = cur.pc[:L] + [ccond]
         return cur
 
+    def pair_walk(self, a, b, seen):
+        stack = [(a, b)]
+        while stack:
+            a, b = stack.pop()
+            if a is None or b is None: continue
+            key = (id(a), id(b))
+            if key in seen: continue
+            seen.add(key)
+            if isinstance(a, Cell) and isinstance(b, Cell):
+                self._pair[id(b)] = a; stack.append((a.val, b.val))
+            elif isinstance(a, RefV) and isinstance(b, RefV):
+                stack.append((a.cell, b.cell))
+            elif isinstance(a, StructV) and isinstance(b, StructV):
+                self._pair[id(b)] = a
+                for k in set(a.fields) & set(b.fields):
+                    stack.append((a.fields[k], b.fields[k]))
+            elif isinstance(a, EnumV) and isinstance(b, EnumV):
+                for v in set(a.payload) & set(b.payload):
+                    pa, pb = a.payload[v], b.payload[v]
+                    for k in set(pa) & set(pb): stack.append((pa[k], pb[k]))
+
+    def translate(self, x):
+        """value taken over from the other state: redirect references to objects that have a counterpart in cur"""
+        if x is None or isinstance(x, (IntV, BoolV, Opaque, int, str, tuple)): return x
+        if id(x) in self._pair: return self._pair[id(x)]
+        if id(x) in self._tr_seen: return self._tr_seen[id(x)]
+        self._tr_seen[id(x)] = x
+        if isinstance(x, Cell):
+            x.val = self.translate(x.val); return x
+        if isinstance(x, RefV):
+            r = RefV(self.translate(x.cell), x.path); self._tr_seen[id(x)] = r; return r
+        if isinstance(x, StructV):
+            for k in list(x.fields): x.fields[k] = self.translate(x.fields[k])
+            return x
+        if isinstance(x, EnumV):
+            for v in x.payload:
+                if isinstance(x.payload[v], dict):
+                    for k in list(x.payload[v]): x.payload[v][k] = self.translate(x.payload[v][k])
+            return x
+        return x
+
+    def init_like(self, parent, k, other):
+        """the untouched *initial* value of field/element k of the lazily created struct `parent`, shaped like `other`"""
+        name = f'{parent.name}[{k}]' if parent.ty.strip().startswith('[') else f'{parent.name}.{k}'
+        if isinstance(other, IntV):
+            if other.ty == 'Pubkey' or other.ty == 'bytes': return IntV(z3.Int(name), other.ty)
+            return self.ex.fresh(other.ty if other.ty != I80 else I80, name)
+        if isinstance(other, BoolV):
+            return BoolV(z3.Bool(name))
+        if isinstance(other, StructV):
+            if other.ty in ('tuple', 'array', '?', 'zst') or not other.ty: raise Unmergeable('init of anonymous aggregate')
+            return StructV(other.ty, name, {}, lazy=True)
+        if isinstance(other, EnumV):
+            ty = re.sub(r'::<', '<', str(other.ty)); ty = re.sub(r'^(std|core)::(option|result)::', '', ty)
+            if ty in ENUMS and ty not in ('Option', 'Result'):
+                return self.ex.fresh(ty, name)
+            if re.match(r'^Option<.+>$', ty):
+                return self.ex.fresh(ty, name)
+            raise Unmergeable('init of enum ' + ty)
+        raise Unmergeable('init of ' + type(other).__name__)
+
     def merge_cell(self, ca, cb, cond, memo):
         key = (id(ca), id(cb))
         if key in memo: return
@@ -917,7 +999,7 @@ class Engine:
         ca.val = self.merge_val(ca.val, cb.val, cond, memo)
 
     def merge_val(self, a, b, cond, memo):
-        if a is None: return b
+        if a is None: return self.translate(b)
         if b is None: return a
         if isinstance(a, IntV) and isinstance(b, IntV):
             if a.e.eq(b.e): return a
@@ -925,10 +1007,11 @@ class Engine:
         if isinstance(a, BoolV) and isinstance(b, BoolV):
             if a.e.eq(b.e): return a
             return BoolV(z3.If(cond, b.e, a.e))
-        if isinstance(a, Opaque) or isinstance(b, Opaque):
-            return a if isinstance(a, Opaque) else b
+        if isinstance(a, Opaque) and isinstance(b, Opaque):
+            return a
         if isinstance(a, RefV) and isinstance(b, RefV):
             if a.path != b.path: raise Unmergeable('ref path')
+            if a.cell is not b.cell and self._pair.get(id(b.cell)) is not a.cell: raise Unmergeable('refs to different objects')
             self.merge_cell(a.cell, b.cell, cond, memo)
             return a
         if isinstance(a, EnumV) and isinstance(b, EnumV):
@@ -938,10 +1021,20 @@ class Engine:
             pay = {}
             for v in set(a.payload) | set(b.payload):
                 pa = a.payload.get(v); pb = b.payload.get(v)
-                if pa is None or pb is None: pay[v] = pa if pb is None else pb; continue
-                pay[v] = {k: (self.merge_val(pa.get(k), pb.get(k), cond, memo)) for k in set(pa) | set(pb)}
+                if pa is None or pb is None:
+                    pay[v] = pa if pb is None else {k: self.translate(x) for k, x in pb.items()}; continue
+                pay[v] = {}
+                for k in set(pa) | set(pb):
+                    xa, xb = pa.get(k), pb.get(k)
+                    if xa is None: pay[v][k] = self.translate(xb)
+                    elif xb is None: pay[v][k] = xa
+                    else: pay[v][k] = self.merge_val(xa, xb, cond, memo)
             return EnumV(a.ty, d, pay)
         if isinstance(a, StructV) and isinstance(b, StructV):
+            mk = (id(a), id(b))
+            if mk in memo: return a
+            memo[mk] = True
+            if a is b: return a
             for k in set(a.fields) | set(b.fields):
                 va = a.fields.get(k); vb = b.fields.get(k)
                 if isinstance(va, (int, str)) or isinstance(vb, (int, str)):
@@ -949,18 +1042,21 @@ class Engine:
                     continue
                 if va is None or vb is None:
                     other = vb if va is None else va
-                    if a.lazy and isinstance(other, IntV) and isinstance(k, int):
-                        # the missing side still holds the initial symbolic field
-                        init = IntV(z3.Int(f'{a.name}.{k}'), other.ty)
-                        va, vb = (init, vb) if va is None else (va, init)
-                    elif isinstance(other, Cell):
-                        a.fields[k] = other; continue
-                    else:
-                        a.fields[k] = other; continue
+                    if isinstance(other, Cell) or not isinstance(k, int):
+                        # engine-internal cells (__acct, __pointee ...) and named aggregate fields: exist on one side only
+                        if va is None: a.fields[k] = self.translate(other)
+                        continue
+                    if not a.lazy:
+                        if va is None: a.fields[k] = self.translate(other)
+                        continue
+                    init = self.init_like(a, k, other)
+                    va, vb = (init, vb) if va is None else (va, init)
                 if isinstance(va, Cell) and isinstance(vb, Cell):
                     self.merge_cell(va, vb, cond, memo); continue
                 a.fields[k] = self.merge_val(va, vb, cond, memo)
             return a
+        if isinstance(a, Opaque) or isinstance(b, Opaque):
+            raise Unmergeable('opaque vs value')
         if type(a) != type(b): raise Unmergeable(f'{type(a).__name__} vs {type(b).__name__}')
         return a
 
@@ -1072,7 +1168,7 @@ class Engine:
             return self.do_call(st, dest, callee, argstr, retbb)
         m = re.match(r'^(.*?) = (.*)\((.*)\) -> unwind.*$', s)
         if m and ' -> ' in s and 'return:' not in s:
-            raise PathEnd('diverging call ' + m.group(2)[:60])
+            raise PathEnd('diverging call ' + m.group(2)[:60] + ' in ' + fn.name[-70:])
         m = re.match(r'^(\S.*?) = (.*)$', s)
         if m:
             dest_ty = None
